@@ -8,7 +8,8 @@ HARNESS = os.path.join(flexrun.VERIF, 'harness')
 
 class Config:
     def __init__(self, backend='nr', topt=('-Cem',), interactive=None, array=False, reject=False,
-                 yymore=False, stack=False, lineno=False, eof_scs=(), sanitize=True, stdio=False, ledger=False, tables=None, prefix=None, yylmax=None):
+                 yymore=False, stack=False, lineno=False, eof_scs=(), sanitize=True, stdio=False, ledger=False, tables=None, prefix=None, yylmax=None,
+                 bufsize=None):
         self.backend = backend
         self.topt = list(topt)
         self.interactive = interactive      # None / True / False
@@ -24,6 +25,7 @@ class Config:
         self.tables = tables          # None | 'file' | 'verify'
         self.prefix = prefix
         self.yylmax = yylmax
+        self.bufsize = bufsize        # c99 back end: YY_BUF_SIZE is a generation-time constant (%option bufsize)
 
     def key(self):
         return '%s %s I=%s arr=%d/%s rej=%d more=%d stk=%d ln=%d eof=%s stdio=%d led=%d' % (
@@ -47,12 +49,19 @@ def lex_text(rs, cfg, rng, vary=True):
         defs.append('#define FV_TABLES 1')
     top = '%top{\n' + '\n'.join(defs) + '\n#include "fvh.h"\n}\n'
     opts = []
+    c99 = cfg.backend == 'c99'
     if cfg.backend == 'r':
         opts.append('reentrant')
+    if c99:
+        opts.append('emit="c99"')
+        opts.append('noyypanic')
+        if not cfg.stdio:
+            opts.append('noyyread')
+        opts.append('bufsize=%d' % (cfg.bufsize or 16384))
     if cfg.array:
         opts.append('array')
-    if cfg.reject:
-        opts.append('reject')
+    if cfg.reject and not c99:
+        opts.append('reject')       # (c99: yyreject() stands in the action text and is detected)
     if cfg.yymore:
         opts.append('yymore')
     if cfg.stack:
@@ -70,7 +79,36 @@ def lex_text(rs, cfg, rng, vary=True):
     elif cfg.interactive is False:
         opts.append('batch')
     prologue = '%{\nstatic void fv_buffer_op(int op, long a, long b FV_PROTO_LAST);\n%}'
-    text = rs.to_lex(rng, action=lambda i: 'ACT(%d);' % i, prologue=prologue,
+    act = lambda i: 'ACT(%d);' % i
+    if c99:
+        prologue = ('%{\nstatic void fv_buffer_op(int op, long a, long b FV_PROTO_LAST);\n'
+                    'static void yypanic(const char *msg, yyscan_t yyscanner);\n'
+                    + ('' if cfg.stdio else 'static int yyread(char *buf, size_t max_size, yyscan_t yyscanner);\n')
+                    + ('void *yyalloc(size_t n, yyscan_t yyscanner);\nvoid *yyrealloc(void *p, size_t n, yyscan_t yyscanner);\n'
+                       'void yyfree(void *p, yyscan_t yyscanner);\n' if cfg.ledger else '') + '%}')
+        # the whole interpreter loop stands in the action text: flex rewrites yytext, yyleng, yyless(),
+        # yymore(), yyinput(), ... for this back end only where it sees them in an action
+        def act(i):
+            t = ('{ fv_cur_prefix = fv_more_set ? fv_last_leng : 0; fv_more_set = 0; fv_last_leng = (long) yyleng; '
+                 'fv_log_match(%d, yytext, (long) yyleng, FV_LINENO_EXPR, yystart(), fv_bol_needed ? (int) yyatbol() : -1); '
+                 'for (;;) { long a_ = 0, b_ = 0; int op_ = fv_next_op(&a_, &b_); if (op_ == FV_OP_END) break; '
+                 'if (op_ == FV_OP_LESS) { int n_ = (int) (fv_cur_prefix + a_ %% ((long) yyleng - fv_cur_prefix + 1)); '
+                 'yyless(n_); fv_last_leng = (long) yyleng; fv_log_text("less", yytext, (long) yyleng); continue; } '
+                 'if (op_ == FV_OP_UNPUT) { char ch_ = (char) a_; yyunput(ch_); continue; } '
+                 'if (op_ == FV_OP_INPUT) { int c_ = yyinput(); fv_log_int("in", c_); continue; } '
+                 'if (op_ == FV_OP_BEGIN) { int s_ = (int) a_; yybegin(s_); continue; } '
+                 'if (op_ == FV_OP_START) { fv_log_int("start", yystart()); continue; } '
+                 'if (op_ == FV_OP_ATBOL) { fv_log_int("atbol", (int) yyatbol()); continue; } '
+                 'if (op_ == FV_OP_SETBOL) { bool f_ = a_ != 0; yysetbol(f_); continue; } '
+                 'if (op_ == FV_OP_RETURN) return (int) a_; '
+                 'if (op_ == FV_OP_TERMINATE) { yyterminate(); } ' % i)
+            if cfg.yymore:
+                t += 'if (op_ == FV_OP_MORE) { yymore(); fv_more_set = 1; continue; } '
+            if cfg.reject:
+                t += 'if (op_ == FV_OP_REJECT) { yyreject(); } '
+            t += 'FV_OPS_REST(op_, a_, b_) } }'
+            return t
+    text = rs.to_lex(rng, action=act, prologue=prologue,
                      epilogue='#include "fvmain.c"\n', vary=vary, extra_options=opts)
     # user <<EOF>> actions
     if cfg.eof_scs:
@@ -157,8 +195,8 @@ def case_text(rs, build, cfg, srcs, main, acts=None, wraps=None, sched=None, buf
         n = len(rs.rules)
         for i, r in enumerate(rs.rules):
             j = i
-            while j < n - 1 and rs.rules[j].get('chain'):
-                j += 1
+            while j < n and rs.rules[j].get('chain'):
+                j += 1          # past the last rule: the chain ends in the default rule (n + 1)
             tgt.append(j + 1)
         lines.append('chain ' + ' '.join(str(t) for t in tgt) + ' %d' % (n + 1))
     if cfg.eof_scs:
